@@ -661,6 +661,45 @@ def correspondence(ctx, res, terms, recs):
                                                   dict(gen_hist.history_json(g.objs, hist[:m + 1], cfg), check='history', failing_call=m), 'correspondence'))
 
 
+def removal_races(ctx, res, stats, thorough):
+    """Two clients on one directory: one removes a key that holds a file-backed value (delete, del, pop) while the other replaces
+    that key's value by another file-backed one, or removes it and stores another key; every placement of the second client
+    inside the first client's call (deterministic scheduler).  At quiescence the counters, the rows and the value files
+    must agree whatever the interleaving."""
+    import shutil
+    import concdrv
+    from props import c06
+    settings = {'disk_min_file_size': 8}
+    big1, big2 = 'OLD' + 'o' * 30, 'NEW' + 'n' * 30
+    runs = 0
+    seen = set()
+    for remover in ('delete', 'delitem', 'pop'):
+        for other in ([{'op': 'set', 'key': 'k', 'value': big2, 'retry': True}],
+                      [{'op': 'delete', 'key': 'k', 'retry': True}, {'op': 'set', 'key': 'm', 'value': big2, 'retry': True}],
+                      [{'op': 'pop', 'key': 'k', 'retry': True}, {'op': 'add', 'key': 'k', 'value': big2, 'retry': True}]):
+            rem = {'op': 'delitem', 'key': 'k'} if remover == 'delitem' else {'op': remover, 'key': 'k', 'retry': True}
+            programs = [[rem], other]
+            setup = [{'op': 'set', 'key': 'anchor', 'value': big1}, {'op': 'set', 'key': 'k', 'value': big1}]
+            seqs = concdrv.solo_events(ctx, programs, settings=settings, setup=setup)
+            for i in range(0, len(seqs[0]) + 1, 1 if thorough or len(seqs[0]) < 14 else 2):
+                r = concdrv.run_program(ctx, programs, [0] * i + [1] * 300 + [0] * 300, mode='own', settings=settings, setup=setup, max_steps=4000,
+                                        sleep_advances=False)
+                runs += 1
+                res.count(['removal-race', remover, [c['op'] for c in other], i], nontrivial=True)
+                problems = [('removal_race_error', 'client error %r' % e) for e in r['errors'] if e is not None]
+                if r['overflow']:
+                    problems.append(('removal_race_error', 'the run did not terminate'))
+                problems += [('removal_race:' + sig, text) for sig, text in c06.consistency(r['dir'], 'cache', 1)]
+                shutil.rmtree(r['dir'], ignore_errors=True)
+                for sig, text in problems[:2]:
+                    if sig not in seen:
+                        seen.add(sig)
+                        res.violations.append(fw.Violation(sig, '%s [client 0: %s k; client 1: %s placed after %d events of client 0]' % (
+                            text, remover, ' + '.join(c['op'] for c in other), i), {'check': 'removal_race', 'programs': programs, 'setup': setup,
+                                                                                   'schedule': r['schedule_used'], 'settings': settings}))
+    stats['removal_race_runs'] = runs
+
+
 def run(ctx, big=False):
     res = fw.Result()
     res.rule = ('full-API histories (replace, add-on-present, incr, bulk removal, eviction at a reachable size limit, queue operations) with the '
@@ -681,11 +720,12 @@ def run(ctx, big=False):
     open_races(ctx, res, stats, 12 if not thorough else 150)
     lock_contention(ctx, res, stats, 48 if not thorough else 600)
     text_values(ctx, res, stats)
+    removal_races(ctx, res, stats, thorough)
     if not ctx.search_mode:
         correspondence(ctx, res, terms, recs)
     res.extra.update({'states_checked': stats['states'], 'file_backed_rows_seen': stats['file_rows'],
                       'fault_histories': stats['fault_runs'], 'faults_that_fired': stats['faults_fired'],
-                      'open_race_schedules': stats.get('open_race_runs', 0),
+                      'open_race_schedules': stats.get('open_race_runs', 0), 'removal_race_schedules': stats.get('removal_race_runs', 0),
                       'lock_contention_cases': stats.get('contention_cases', 0), 'calls_that_gave_up_on_the_lock': stats.get('contention_timeouts', 0),
                       'calls_that_waited_for_the_lock': stats.get('contention_waits', 0)})
     witnesses(res)
